@@ -221,6 +221,7 @@ def c19(run):
         rs = e["out"].get("rs") or ([e["out"].get("fifo")] + e["out"].get("np", []))
         return any(r and r.get("ok", -1) not in (0, 1) for r in rs)
     trace_stage(run, "agree", "agree", nontrivial=nontriv, ignore_checks=("returns",))
+    trace_stage(run, "agree-ros2", "agree_ros2", nontrivial=nontriv, ignore_checks=("returns",))
 
 
 @check("C17")
@@ -232,6 +233,10 @@ def c17(run):
                        "supply weakening; non-trivial = a harden/raise step in which some result differs from Ok(0); distinct = canonical JSON")
     run.assumptions += ["the task-under-analysis' own last non-preemptive segment is not a hardening (a longer final segment protects the job)"]
     trace_stage(run, "walks", "harden", spec="TraceHarden.tla", cfg="TraceHarden.cfg",
+                session_key=lambda ln: '"op":"reset"' in ln,
+                nontrivial=lambda e: e["op"] != "reset" and any(r.get("ok", 1) != 0 for r in e["res"].values()),
+                keyfn=lambda e: {"sys": e["sys"], "op": e["op"]})
+    trace_stage(run, "walks-ros2", "harden_ros2", spec="TraceHarden.tla", cfg="TraceHarden.cfg",
                 session_key=lambda ln: '"op":"reset"' in ln,
                 nontrivial=lambda e: e["op"] != "reset" and any(r.get("ok", 1) != 0 for r in e["res"].values()),
                 keyfn=lambda e: {"sys": e["sys"], "op": e["op"]})
